@@ -1434,6 +1434,25 @@ def gen_C13(tier, seed):
             p.frame(lf, 'FR', [idx, oth], index_type=EN('FrameIndexType', 'BOREHOLE_DEPTH'))
             p.write(1, **{k: min(v, len(sq)) for k, v in kw.items()})
             progs.append(p.build())
+    # the index channel written through a cast that changes its values (float64 -> int16 / float32 -> int32 truncation): INDEX-MIN / MAX,
+    # SPACING and DIRECTION are those of the rows written, not of the source values
+    for i in range(4 if tier == 'quick' else 12):
+        src = [np.array([0.6, 1.6, 2.6, 3.6, 4.6]), np.array([10.9, 8.2, 6.7, 4.1, 2.5]), np.array([100.5, 200.5, 300.5, 400.5]),
+               np.array([7.9, 8.1, 9.9, 10.1, 11.9, 12.1])][i % 4]
+        cast = ['int16', 'int32', 'uint16', 'int16'][i % 4]
+        p = Prog(f'C13-castindex-{i}', {'kind': 'castindex', 'cast': cast})
+        lf, _ = base_lf(p)
+        route = ['inline', 'dict'][i % 2]
+        if route == 'inline':
+            idx = p.channel(lf, 'INDEX', data=src.astype('float64'), cast=cast)
+            oth = p.channel(lf, 'OTHER', data=rand_array(rng, 'float32', len(src)))
+            arrs = {}
+        else:
+            idx, oth = p.channel(lf, 'INDEX', cast=cast), p.channel(lf, 'OTHER')
+            arrs = {idx: p.array(src.astype('float64')), oth: p.array(rand_array(rng, 'float32', len(src)))}
+        p.frame(lf, 'FR', [idx, oth], index_type=EN('FrameIndexType', 'BOREHOLE_DEPTH'))
+        p.write(1, route='none' if route == 'inline' else route, data_arrays=arrs, **({'from': 1, 'to': 4} if i >= 4 else {}))
+        progs.append(p.build())
     # the caller changes its inline arrays in place between two writes (same window): the statistics are those of the rows written
     for i in range(4 if tier == 'quick' else 16):
         p = Prog(f'C13-inplace-{i}', {'kind': 'inplace'})
